@@ -12,7 +12,9 @@ ID = "C07"
 RULE = ("every scene (ordered sub-lists <=2 x <=2, thorough <=3 x <=2, of the 10-estimate / 8-ground-truth pool) x label policies x "
         "critical filters x manager filters {wide x/y, narrow per-label x/y, distance ring} x ego poses of the menu is evaluated twice "
         "through one real manager per rendering: objects in BASE_LINK, and the same scene rendered in MAP (moved by the ego pose); "
-        "tracking: 3-frame histories with moving objects, moving ego and track-id patterns {stable, swap, swap-back}. The two "
+        "tracking: 3-frame histories with moving objects, moving ego and track-id patterns {stable, swap, swap-back}; interpolated ground truth: "
+        "2-sample generated datasets x 3 ego motions x 3 query times x 3 estimate offsets x 2 critical filters, first the loaded then the interpolated "
+        "frame evaluated on one manager (map rendering) against the same physical scene built in the ego frame from the reference interpolation. The two "
         "executions are compared: pairing, per-pair scores, TP/FP/FN/TN, critical GT, AP/APH per label and mode, MOTA/MOTP/ID "
         "switches. state = (task, policy, filters, ego index, outcome summary); non-trivial = a range filter removes something or "
         "a FP/FN exists")
@@ -52,6 +54,9 @@ def units(tier, seed):
         for pat in ("stable", "swap", "swapback"):
             for pol in pols[:2]:
                 u.append(dict(task="tracking", ego=e, policy=pol, mgr="wide", crit="box_per_label", pattern=pat))
+    # interpolated ground truth through the manager (dataset + get_ground_truth_now_frame(interpolate=True)), two steps on one manager
+    for motion in range(3):
+        u.append(dict(task="interp", motion=motion))
     return u
 
 
@@ -61,6 +66,12 @@ def bounds(tier, seed):
 
 
 def run_unit(unit, acc):
+    if unit["task"] == "interp":
+        for alpha in (0.25, 0.5, 0.8):
+            for off in range(3):
+                for crit in ("box_per_label", "ring"):
+                    check_case(dict(task="interp", motion=unit["motion"], alpha=alpha, offset=off, crit=crit, seed=_SEED[0]), acc)
+        return
     est, gt = S.pools(_SEED[0])
     if unit["task"] == "tracking":
         est, gt = [est[i] for i in (0, 1, 3, 4, 5, 7)], [gt[j] for j in (0, 1, 3, 4, 7)]
@@ -167,8 +178,111 @@ def _scene_summary(sc, tracking):
     return out
 
 
+# ---- interpolated ground truth -------------------------------------------------------------------
+EGO_MOTION = [((0.0, 0.0, 0.0), (2.0, 0.5, 0.3)), ((10.0, -5.0, 0.7), (12.5, -4.0, 1.1)), ((-300.0, 120.0, 3.0), (-301.0, 118.0, -3.1))]
+GT_LOCAL = [dict(uuid="i0", cat="car", label="CAR", a=(6.0, 1.0, 0.3), b=(6.8, 1.4, 0.5), size=(2.0, 4.0, 1.5)),
+            dict(uuid="i1", cat="car", label="CAR", a=(11.0, -3.0, -1.0), b=(11.2, -2.0, -1.3), size=(2.0, 4.0, 1.5)),
+            dict(uuid="i2", cat="pedestrian.adult", label="PEDESTRIAN", a=(7.0, 4.5, 2.0), b=(7.5, 3.0, 2.6), size=(0.6, 0.6, 1.7))]
+EST_OFF = [(0.3, -0.1, 0.05), (0.9, 0.4, -0.4), (-0.2, 0.15, 3.0)]
+_DS = {}
+
+
+def _interp_dataset(motion):
+    """2-sample dataset; objects are given in each sample's ego frame and written with their global poses."""
+    from mc.engine import scratch
+    from mc.gen import t4
+    import os
+    if motion not in _DS:
+        d = scratch.new_dir("c07_interp%d" % motion)
+        root = os.path.join(d, "ds")
+        samples = []
+        for k, ego in enumerate(EGO_MOTION[motion]):
+            anns = []
+            for g in GT_LOCAL:
+                x, y, yaw = g["a"] if k == 0 else g["b"]
+                gx, gy, gyaw = geom.ego_to_map(x, y, yaw, ego)
+                anns.append(dict(inst=g["uuid"], cat=g["cat"], pos=(gx, gy, 0.5), yaw=gyaw, size=g["size"], npts=10, vis="full"))
+            samples.append(dict(ts=1000000 + 100000 * k, ego=ego, anns=anns))
+        t4.write(root, samples, ["car", "pedestrian.adult"])
+        _DS[motion] = root
+    return _DS[motion]
+
+
+def _check_interp(case, acc):
+    """map rendering: library-interpolated frame + map-frame estimates; ego rendering: the same physical scene built in the ego frame
+    from the reference interpolation (lerp position, shortest-arc yaw, lerp ego pose)."""
+    root = _interp_dataset(case["motion"])
+    e0, e1 = EGO_MOTION[case["motion"]]
+    al = case["alpha"]
+    ov = dict(MGR["wide"][0], **METRICS)
+    t0, t1 = 1000000, 1100000
+    tq = int(round(t0 + al * (t1 - t0)))
+    al = (tq - t0) / float(t1 - t0)
+    ego_q = (e0[0] + al * (e1[0] - e0[0]), e0[1] + al * (e1[1] - e0[1]), e0[2] + al * geom.wrap(e1[2] - e0[2]))
+    runs = {}
+    for rendering in ("map", "base_link"):
+        m = F.manager("tracking", rendering, ov, datasets=[root])
+        m.frame_results = []
+        outs = []
+        for step, (t, ego) in enumerate(((t0, e0), (tq, ego_q))):
+            # physical scene at this step, in global coordinates
+            glob = []
+            for g in GT_LOCAL:
+                ga = geom.ego_to_map(*g["a"], e0)
+                gb = geom.ego_to_map(*g["b"], e1)
+                a_ = 0.0 if step == 0 else al
+                glob.append((g, (ga[0] + a_ * (gb[0] - ga[0]), ga[1] + a_ * (gb[1] - ga[1]), ga[2] + a_ * geom.wrap(gb[2] - ga[2]))))
+            dx, dy, dyaw = EST_OFF[case["offset"]]
+            if rendering == "map":
+                acc.exec()
+                fg = m.get_ground_truth_now_frame(t, threshold_min_time=200000 if step else 75000, interpolate_ground_truth=True)
+                if fg is None:
+                    acc.violation("interp:no-frame", "no ground-truth frame for step %d" % step, case)
+                    return None
+                ests = []
+                for i, (g, (gx, gy, gyaw)) in enumerate(glob):
+                    lx, ly, lyaw = geom.map_to_ego(gx, gy, gyaw, ego)
+                    ex, ey, eyaw = geom.ego_to_map(lx + dx, ly + dy, lyaw + dyaw, ego)
+                    ests.append(G.mk3d(dict(x=ex, y=ey, z=0.5, yaw=eyaw, label=g["label"], uuid="e" + g["uuid"], score=0.9 - 0.1 * i, size=list(g["size"]), t=t,
+                                            vel=[1.0, 0.0, 0.0]), "map", (0.0, 0.0, 0.0)))
+            else:
+                gts, ests = [], []
+                for i, (g, (gx, gy, gyaw)) in enumerate(glob):
+                    lx, ly, lyaw = geom.map_to_ego(gx, gy, gyaw, ego)
+                    gts.append(G.mk3d(dict(x=lx, y=ly, z=0.5, yaw=lyaw, label=g["label"], uuid=g["uuid"], size=list(g["size"]), t=t, vel=[1.0, 0.0, 0.0])))
+                    ests.append(G.mk3d(dict(x=lx + dx, y=ly + dy, z=0.5, yaw=lyaw + dyaw, label=g["label"], uuid="e" + g["uuid"], score=0.9 - 0.1 * i,
+                                            size=list(g["size"]), t=t, vel=[1.0, 0.0, 0.0])))
+                fg = F.frame_gt(gts, ego, t, str(step))
+            acc.exec()
+            fr = m.add_frame_result(t, fg, ests, F.crit_config(m.evaluator_config, S.CRIT[case["crit"]]), F.pf_config(m.evaluator_config, S.THR["per_label"]))
+            outs.append(_summ(fr, True))
+        m.frame_results = []
+        runs[rendering] = outs
+    return runs
+
+
 def check_case(case, acc):
     acc.case()
+    if case["task"] == "interp":
+        runs = _check_interp(case, acc)
+        if runs is None:
+            return
+        acc.compared()
+        last = runs["base_link"][-1]
+        acc.state(("interp", case["motion"], case["alpha"], case["offset"], case["crit"], tuple(last["tp"]), tuple(last["fn"])), nontrivial=True)
+        acc.outcome(("interp", tuple(last["tp"]), tuple(last["fp"])))
+        for k, (x, y) in enumerate(zip(runs["base_link"], runs["map"])):
+            x, y = dict(x), dict(y)
+            for d_ in (x, y):
+                d_.pop("scores", None)   # interpolated poses carry ~1e-9 noise through slerp; decisions and metrics are compared
+            d = _diff(x, y)
+            if d:
+                acc.violation("ego-vs-map:interpolated:" + "+".join(d), "step %d (%s ground truth) differs between the ego-frame and the map-frame rendering in %s: ego=%s map=%s" % (
+                    k, "interpolated" if k else "loaded", d, {kk: x[kk] for kk in d}, {kk: y[kk] for kk in d}), case)
+                break
+        if acc.cases % 7 == 1:
+            acc.sample(case)
+        return
     tracking = case["task"] == "tracking"
     base_ego = G.ego_menu(case.get("seed", 0))[case["ego_index"]]
     nframes = 3 if tracking else 1
